@@ -1,6 +1,6 @@
 """C03 - a --tx/--txin session reproduces consensus validation of that input."""
 import json, glob, re
-import checklib, drivers, gen_spend
+import checklib, drivers, gen_spend, build
 from drivers import SessionJob, STANDARD
 import c01
 
@@ -17,7 +17,7 @@ ASSUME = ["Bitcoin's input validation rules as transcribed in spec/Consensus.tla
 
 def doc_pairs():
     out = []
-    for f in sorted(glob.glob("/repo/doc/txs/*-tx")):
+    for f in sorted(glob.glob(build.REPO + "/doc/txs/*-tx")):
         base = f[:-3]
         try:
             tx = re.search(r"[0-9a-f]{100,}", open(f).read()).group(0)
